@@ -54,7 +54,10 @@ mod verif_witness {
         let mut n_cases = 0usize;
         for limit in [0u64, 1, 7, 16] {
             for len in [0usize, 1, 6, 7, 8, 15, 16, 17, 40] {
-                let data: Vec<u8> = (0..len).map(|i| (i * 7 + 3) as u8).collect();
+                // arbitrary bytes, including a UTF-8 byte-order mark, NULs, 0xFF and trailing blanks / newlines: a body is bytes
+                let mut data: Vec<u8> = (0..len).map(|i| (i * 7 + 3) as u8).collect();
+                for (k, b) in [0xEFu8, 0xBB, 0xBF, 0x00, 0xFF].iter().enumerate() { if k < len && len % 2 == 0 { data[k] = *b; } }
+                if len >= 2 && len % 3 == 0 { data[len - 1] = b'\n'; data[len - 2] = b' '; }
                 let claims: Vec<Option<String>> = vec![None, Some(len.to_string()), Some("0".into()), Some(len.saturating_sub(1).to_string()), Some((len / 2).to_string()),
                     Some((len + 1).to_string()), Some((limit + 1).to_string()), Some(limit.to_string()), Some("garbage".into()), Some("-1".into()), Some("18446744073709551616".into())];
                 for cl in &claims { for chunk in [1usize, 3, 64] {
@@ -83,6 +86,13 @@ mod verif_witness {
     // ---- the public extractor, fed by a real hyper::body::Incoming (in-memory HTTP/1.1 exchange over tokio::io::duplex) ----
     type Outcome = Result<BufferedBody, ExtractBufferedBodyError>;
     async fn extract_over_hyper(frames: Vec<Vec<u8>>, content_length: Option<String>, limit: crate::request::body::BodySizeLimit) -> Outcome {
+        extract_over(frames, content_length, limit, false).await
+    }
+    /// the same over HTTP/2 (streamed DATA frames; Content-Length optional and no Transfer-Encoding)
+    async fn extract_over_h2(frames: Vec<Vec<u8>>, content_length: Option<String>, limit: crate::request::body::BodySizeLimit) -> Outcome {
+        extract_over(frames, content_length, limit, true).await
+    }
+    async fn extract_over(frames: Vec<Vec<u8>>, content_length: Option<String>, limit: crate::request::body::BodySizeLimit, h2: bool) -> Outcome {
         use hyper_util::rt::TokioIo;
         use std::convert::Infallible;
         let (client_io, server_io) = tokio::io::duplex(1 << 16);
@@ -97,16 +107,25 @@ mod verif_witness {
                     Ok::<_, Infallible>(http::Response::new(http_body_util::Full::new(Bytes::new())))
                 }
             });
-            let _ = hyper::server::conn::http1::Builder::new().serve_connection(TokioIo::new(server_io), service).await;
+            if h2 { let _ = hyper::server::conn::http2::Builder::new(hyper_util::rt::TokioExecutor::new()).serve_connection(TokioIo::new(server_io), service).await; }
+            else { let _ = hyper::server::conn::http1::Builder::new().serve_connection(TokioIo::new(server_io), service).await; }
         };
         let client = async move {
-            let (mut sender, conn) = hyper::client::conn::http1::handshake(TokioIo::new(client_io)).await.unwrap();
             let frames = frames.into_iter().map(|f| Ok::<_, Infallible>(hyper::body::Frame::data(Bytes::from(f))));
             let body = http_body_util::StreamBody::new(futures_util::stream::iter(frames));
-            let mut req = http::Request::builder().method("POST").uri("/").header("host", "localhost");
+            let mut req = http::Request::builder().method("POST").uri(if h2 { "http://localhost/" } else { "/" });
+            if !h2 { req = req.header("host", "localhost"); }
             if let Some(cl) = content_length { req = req.header("content-length", cl); }
             let req = req.body(body).unwrap();
-            tokio::join!(async move { let _ = sender.send_request(req).await; }, async move { let _ = conn.await; });
+            if h2 {
+                let (mut sender, conn) = hyper::client::conn::http2::handshake(hyper_util::rt::TokioExecutor::new(), TokioIo::new(client_io)).await.unwrap();
+                let driver = tokio::spawn(async move { let _ = conn.await; });
+                let _ = sender.send_request(req).await;
+                drop(sender); driver.abort();
+            } else {
+                let (mut sender, conn) = hyper::client::conn::http1::handshake(TokioIo::new(client_io)).await.unwrap();
+                tokio::join!(async move { let _ = sender.send_request(req).await; }, async move { let _ = conn.await; });
+            }
         };
         tokio::join!(server, client);
         rx.recv().await.expect("the server never ran the extractor")
@@ -134,6 +153,18 @@ mod verif_witness {
             }
         }
         println!("VERIF-BOUNDED test=the_public_extractor_enforces_every_limit_on_a_real_incoming_body evaluations={} bound=limits {{0,1,10}} x body lengths {{0,1,2,9,10,11,30}} x frame sizes {{1,4,64}} x Content-Length {{absent, truthful}}", 3 * 7 * 3 * 2);
+        // HTTP/2: streamed bodies without Content-Length (and without Transfer-Encoding) are bodies all the same
+        for limit in [0u64, 10] { for n in [0usize, 9, 10, 11, 30] { for with_cl in [false, true] {
+            let data: Vec<u8> = (0..n).map(|i| b'a' + (i % 26) as u8).collect();
+            let frames: Vec<Vec<u8>> = data.chunks(4).map(|c| c.to_vec()).collect();
+            let cl = with_cl.then(|| n.to_string());
+            let case = format!("HTTP/2 limit={limit} body={n} bytes, content-length={cl:?}");
+            match extract_over_h2(frames, cl, BodySizeLimit::Enabled { max_size: limit.bytes() }).await {
+                Ok(b) => { assert!(n as u64 <= limit, "{case}: {} bytes were handed to the application", b.bytes.len()); assert_eq!(&b.bytes[..], &data[..], "{case}: not byte-identical to what the client sent"); }
+                Err(ExtractBufferedBodyError::SizeLimitExceeded(_)) => assert!(n as u64 > limit, "{case}: size error for a body within the limit"),
+                Err(e) => panic!("{case}: unexpected error {e:?}"),
+            }
+        } } }
         let data = vec![9u8; 5000];
         let b = extract_over_hyper(data.chunks(700).map(|c| c.to_vec()).collect(), None, BodySizeLimit::Disabled).await.expect("no limit: no size error");
         assert_eq!(&b.bytes[..], &data[..]);
